@@ -112,7 +112,7 @@ def check(F, rep, tier):
         rep.floor("R07.5", "ZervVars fields wired in PEP440::to_zerv_with_schema", len(wires), 7)
         # epoch only when > 0; extra release parts -> core UInt; local -> build
         skip3 = any((mir.callee(t) or "").endswith("Iterator::skip") and mir.const_arg(pz, t[2][1]) == 3 for bi, t in pz.calls())
-        pushes = {(mir.callee(t) or "").rsplit("::", 1)[-1] for bi, t in pz.calls() if "ZervSchema::push_" in (mir.callee(t) or "")}
+        pushes = {(mir.callee(t) or "").rsplit("::", 1)[-1] for g_ in [pz] + mir.closures_in(F, pz) for bi, t in g_.calls() if "ZervSchema::push_" in (mir.callee(t) or "")}
         if skip3 and pushes == {"push_core", "push_build"}: rep.ok("R07.5", "release parts beyond 3 -> core, local segments -> build", nontrivial_key="extra")
         else: rep.bad("R07.5", "to-zerv-extra", "extra release parts / local segments are not mapped to core / build (skip(3): %s, pushes %s)" % (skip3, sorted(pushes)), pz.where())
         dflt = any((mir.callee(t) or "").endswith("ZervSchema::pep440_default") for bi, t in pz.calls())
